@@ -20,6 +20,15 @@ def main():
     sys.path.insert(0, os.path.dirname(os.path.dirname(os.path.abspath(__file__))))
     from sim import boot
     if job.get('kind', '').startswith('callsim'):
+        # baton-passed threads never run in parallel; on one CPU a hand-over is a local wake-up instead of a cross-core one
+        # (measured: a 10-caller lockstep run 104 s unpinned on an idle machine, see DESIGN.md). Wall time only: the
+        # schedule is decided by the policy, not by the OS.
+        try:
+            cpus = sorted(os.sched_getaffinity(0))
+            if job.get('cpu_slot') is not None and len(cpus) > 1 and not os.environ.get('VERIF_NO_PIN'):
+                os.sched_setaffinity(0, {cpus[job['cpu_slot'] % len(cpus)]})
+        except (AttributeError, OSError):   # pragma: no cover
+            pass
         from sim import simlock
         simlock.install()       # library-created locks become simulator-aware (before the library is imported)
     rep = {'ok': False}
